@@ -505,7 +505,14 @@ func alphabet(m *tbin.Val, s *tbin.Shape, cfg config, touched map[string]bool, i
 			if c.PE.K == 'b' {
 				leafOK = false // no keyed setter for non-string/int keys: such children can only be cleared
 			}
-			if c.S != nil && leafOK {
+			if cp.v.T == tbin.STRUCT && c.PE.K == 'f' && !isLeaf(c.V) && cfg.recurse && !touched[c.PE.String()] && len(cp.path) == 0 {
+				// a recursively loaded container FIELD replaced by a scalar of another type (the node keeps the children
+				// of the old value; a scalar node is written from its own bytes all the same)
+				for _, sv := range []*tbin.Val{tbin.Str("repl"), tbin.I32v(5)} {
+					ops = append(ops, op{Kind: "set", At: cp.path, PE: c.PE, Val: sv, Trig: "container-field-replaced-by-scalar-in:" + k})
+				}
+			}
+			if c.S != nil && leafOK && !loadedContainer(cp.path, c.PE) {
 				nv := fresh(c.S, 1, 3+i)
 				kind := "set"
 				if c.PE.K == 'i' {
@@ -523,7 +530,37 @@ func alphabet(m *tbin.Val, s *tbin.Shape, cfg config, touched map[string]bool, i
 		// insertion of an absent child
 		switch cp.v.T {
 		case tbin.STRUCT:
-			for _, id := range []int16{7, 256, 300} {
+			ids := []int16{7, 256, 300}
+			// the ids right behind the largest present one: with by-id storage that is where an appended child lands
+			maxID := int16(0)
+			for _, f := range cp.v.Fs {
+				if f.ID > maxID {
+					maxID = f.ID
+				}
+			}
+			if maxID < 250 {
+				ids = append(ids, maxID+1, maxID+2)
+			}
+			// ... and behind the largest id of the value as it was LOADED (the table was sized for that one)
+			if iv := initial; iv != nil {
+				for _, e := range cp.path {
+					if iv = childOf(iv, e); iv == nil {
+						break
+					}
+				}
+				if iv != nil && iv.T == tbin.STRUCT {
+					im := int16(0)
+					for _, f := range iv.Fs {
+						if f.ID > im {
+							im = f.ID
+						}
+					}
+					if im < 250 && im != maxID {
+						ids = append(ids, im+1, im+2)
+					}
+				}
+			}
+			for _, id := range ids {
 				if cp.v.FieldByID(id) == nil && !loadedContainer(cp.path, tutil.PE{K: 'f', ID: id}) {
 					ops = append(ops, op{Kind: "insert", At: cp.path, PE: tutil.PE{K: 'f', ID: id}, Val: tbin.I32v(int32(id) * 3), Trig: fmt.Sprintf("absent-in:%s,id%s", k, idClass(id))})
 				}
